@@ -36,7 +36,8 @@ def als_cases(draw, tier):
             "wkind": draw(st.sampled_from(["positive", "positive", "some_zero", "slice_zero"])), "wcore": draw(st.sampled_from([1, 1, 0, d - 1])),
             "layout": draw(st.sampled_from(["plain", "dups", "single", "single", "grid"])),
             "p": draw(st.sampled_from(["first", "mid", "last"])), "k0": draw(st.integers(0, d - 1)),
-            "nswp": draw(st.integers(1, 4)), "a": draw(st.integers(1, 3)), "pseed": draw(gen.seeds)}
+            "nswp": draw(st.integers(1, 4)), "a": draw(st.integers(1, 3)), "pseed": draw(gen.seeds),
+            "yscale10": draw(st.sampled_from([0, 0, 0, 0, 6, 12, -6]))}
     return case
 
 
@@ -77,6 +78,7 @@ def make_data(case):
         y = rng.normal(size=len(I)) * 3
     else:
         y = np.full(len(I), 1.5)
+    y = y * 10.0 ** case.get("yscale10", 0)          # data of any magnitude (the regularisation is then relatively tiny / huge)
     w = rng.uniform(0.2, 3.0, size=len(I)) if case["weights"] else None
     if w is not None:
         # weights are non-negative: exact zeros switch samples off; a slice whose samples ALL have weight 0 has the ridge minimiser 0
@@ -133,6 +135,7 @@ def prop_als(case, ctx):
     lamb = 10.0 ** case["lamb10"]
     Y0 = gen.build_tt(case["Y0"])
     nswp = case["nswp"]
+    ctx.label(f"yscale=1e{case.get('yscale10', 0)}")
     ctx.label("layout:" + case["layout"], ("weights:" + case.get("wkind", "positive")) if w is not None else "noweights", f"lamb=1e{case['lamb10']}", f"d={d}", "target:" + case["target"])
     if single:
         ctx.label(f"single_at_{case['p']}", f"single_core_{min(single[0], 2)}")
@@ -248,6 +251,9 @@ def prop_skip(case, ctx):
     ctx.label(f"d={d}", "weights" if w is not None else "noweights")
     ctx.nontrivial(True)
     ctx.raises(ValueError, teneva.als, I, y, Y0, 2, None, {}, lamb=lamb, w=w)
+    if d >= 3:
+        # the rank-adaptive mode rejects missing slice data as well
+        ctx.raises(ValueError, teneva.als, I, y, Y0, 2, None, {}, lamb=lamb, w=w, r=max(oracle.ranks_of(Y0)) + 1)
     Y = ctx.lib(teneva.als, I, y, Y0, 2, None, {}, lamb=lamb, w=w, allow_skip_cores=True)
     why = oracle.wellformed(Y, n)
     ctx.check(why is None, f"als(allow_skip_cores): {why}")
